@@ -33,7 +33,7 @@ from multiprocessing import Pool
 
 from harness import vloop
 from harness.base import Results, corpus_lines
-from harness.c01 import PROTO_CLASS, id_token, py_detect, value, value_token
+from harness.c02_util import PROTO_CLASS, id_token, py_detect, value, value_token
 from tools.facts.common import fresh_import
 
 
